@@ -148,10 +148,19 @@ return ((w[2], r), ([], ('ok', want, None, ew)))
                meta={'function': 'rbql_csv.CSVWriter -> rbql_csv.CSVRecordIterator', 'bounds': 'every representable table with field lengths %s' % (shape,)})
 
 
-def _lossy_obl(dlm, policy, shape, timeout):
+def _lossy_obl(dlm, policy, shape, timeout, header_lens=None):
     params = []
     pre = []
     rows = []
+    hexpr = 'None'
+    if header_lens is not None:
+        hs = []
+        for i, L in enumerate(header_lens):
+            p_, pre_, e_ = str_params('h%d' % i, L)
+            params += p_
+            pre += pre_
+            hs.append(e_)
+        hexpr = '[' + ', '.join(hs) + ']'
     for ri, row in enumerate(shape):
         cells = []
         for ci, L in enumerate(row):
@@ -163,18 +172,19 @@ def _lossy_obl(dlm, policy, shape, timeout):
     texpr = '[' + ', '.join(rows) + ']'
     body = indent('''
 T = %s
+H = %s
 has_none = any(f is None for r in T for f in r)
-has_dlm = any((f is not None and DLM in f) for r in T for f in r)
-w = csvh.write_all(T, DLM, POLICY)
+has_dlm = any((f is not None and DLM in f) for r in T for f in r) or (H is not None and any(DLM in h for h in H))
+w = csvh.write_all(T, DLM, POLICY, header=H)
 ew = []
 if has_none:
     ew.append('None values in output were replaced by empty strings')
 if has_dlm:
     ew.append('Some output fields contain separator')
 return ((w[0], w[2] if w[0] == 'ok' else None), ('ok', ew))
-''' % texpr)
+''' % (texpr, hexpr))
     src = harness('from vf import csvh\nDLM = %r\nPOLICY = %r\n' % (dlm, policy), params, pre, body)
-    return Obl('lossy[%s,%s,shape=%s]' % (policy, DN[dlm], '/'.join('+'.join(map(str, r)) for r in shape)), src, timeout=timeout,
+    return Obl('lossy[%s,%s,shape=%s%s]' % (policy, DN[dlm], '/'.join('+'.join(map(str, r)) for r in shape), (',header=' + '+'.join(map(str, header_lens))) if header_lens is not None else ''), src, timeout=timeout,
                meta={'function': 'rbql_csv.CSVWriter.write/get_warnings', 'bounds': 'fields str of the stated lengths or None: %s' % (shape,)})
 
 
@@ -234,6 +244,7 @@ def obligations(tier, seed):
     for dlm, policy in ((',', 'simple'), (' ', 'whitespace'), ('\t', 'simple')):
         for shape in lsh:
             obs.append(_lossy_obl(dlm, policy, shape, 200 if quick else 900))
+        obs.append(_lossy_obl(dlm, policy, [(1, 1)], 200 if quick else 900, header_lens=(2, 1)))   # the header line is output too
     # D. multi-character delimiter under the quoted policies (broken before the fix recorded in known_findings.json: "fixed: property=C10 ...")
     for shape in ([[(1, 1)], [(2,)], [(1, 0), (1,)]] if quick else [[(1, 1)], [(2,)], [(1, 0), (1,)], [(2, 1)], [(1, 2)], [(1, 1, 1)], [(3,)], [(2, 2)]]):
         for pol in ('quoted', 'quoted_rfc'):
